@@ -610,6 +610,7 @@ func announcedCountRule(c *Ctx, rule, name string, enc *ssa.Call) {
 				if p, ok := ia.X.(*ssa.Parameter); ok {
 					if _, isPhi := ia.Index.(*ssa.BinOp); isPhi || true {
 						lists["Bytes(bigI(len(P:"+paramName(p)+")))"] = true
+						lists["Bytes(bigU(len(P:"+paramName(p)+")))"] = true // SetUint64(uint64(len(list))): the same full-width bytes
 					}
 				}
 			}
